@@ -579,6 +579,9 @@ def gen_pi_axis(c):
 #                                                              evs.take K ++ (rest of a)
 # min(n, len(events))                                          min n evs.length
 # a[a == miss_val] = np.nan                                    a.map (fun v => if v = miss then nan else v)
+#   (miss = Hdr.miss, the missVal IN THE STORAGE TYPE of `a`: numpy compares a float32 array — the untouched result of
+#   np.fromfile(…, dtype=self.__pi_dtype), no astype before the mask — with the Python float in float32; for the float64
+#   array of the XML branch it is missVal itself.  C11_binary_missing_stays_missing / C11_binary_miss_width_witness)
 # self.set_unit(variable, unit=u, ensemble_member=m)           unit field of the Entry stored in slot m
 # np.hstack((filler, a)) / np.hstack((a, filler))              nans k ++ a / a ++ nans k
 # int(round(bisect_left(…) - bisect_left(…)))                  the difference (an integer)
